@@ -7,7 +7,9 @@ generated inputs (> 2^16 tokens / memo locations) and slice-length straddles (2^
 (3) correspondence: recorded longest_match calls replayed on the model; (4) monitors: cache hits vs recomputation,
 location keys vs (token, slice length).
 c13x.rs adds: the pruning decision on generated prune_options calls (group `prune`), the audit of first-token hints,
-grammar-directed sentences into every option (aimed / confusable) and placeholder-templated inputs.
+grammar-directed sentences into every option (aimed / confusable), placeholder-templated inputs and configuration
+histories (a Dialect / Linter reused under changing [sqruff:indentation] switches vs instances that never saw another
+configuration; trees compared with their meta segments).
 post: the 13 Keys_<d>.v obligations are compiled by coqc."""
 import os
 
@@ -52,6 +54,7 @@ def _post(ctx):
         cache_hits_audited=c.get("cache_hits_audited", 0),
         cache_hits_differing_from_recomputation=c.get("cache_hits_differing_from_recomputation", 0),
         location_keys_audited=c.get("location_keys_audited", 0),
+        configuration_histories={k: v for k, v in c.items() if k.startswith("config_history_")},
         big_inputs=[r["v"] for r in recs if r.get("t") == "stat" and isinstance(r.get("v"), dict) and "big_input" in r["v"]],
         big_inputs_reaching_2_16={k: v for k, v in c.items() if k.startswith("big_inputs_with_")},
         slice_length_sites={k: v for k, v in c.items() if "slice_length_sites" in k},
@@ -136,6 +139,13 @@ CFG = dict(
          "placeholder-templated inputs (values that render to several tokens with repeated tokens; C04's shape and corpus "
          "generators, 7 placeholder styles) parsed through Linter::parse_string 5 ways (baseline with both audits, cache off, "
          "prune off, both off, repeat), CPU limit 15 s per parse; "
+         "configuration histories: per dialect and history (2: starting with every indentation switch off / on) one reused Dialect "
+         "(Parser::new(&dialect, switches)) and one reused Linter (Linter::config_mut rewrites [sqruff:indentation]) parse 8 skeleton "
+         "statements (JOIN/USING/ON/CTE/CASE) and 7 (quick) / 40 (thorough) fixtures of the dialect holding such words under each of "
+         "16-17 (quick) / 30 (thorough) settings of the 8 switches (all off, defaults, each alone, defaults with one flipped, random, all on) "
+         "in an order reshuffled per input; each serialised tree (Indent/Dedent/Implicit metas included) is compared with the tree of a "
+         "dialect instance that only ever parsed under that setting, a difference is confirmed against an instance that never parsed "
+         "(fresh Dialect / Linter built by FluffConfig::from_source with the switches in its source); "
          "group prune: the real prune_options on generated calls = every token of the dialect's vocabulary (every text a string "
          "parser of the grammar accepts, keyword sets, generic lexemes and operators, one token per token kind of the fixtures) x "
          "option lists of real nodes of K: every ordered pair of {kept by raw hint, kept by type hint, by both, not simple, dropped} "
@@ -159,6 +169,8 @@ CFG = dict(
         "the kind of a NodeMatcher in scope whose hint lacks that kind (fails for numeric literals)",
         "H_loc: a location key identifies (token raw, working location, token type, slice length) within one parse (monitored, "
         "blocking: every longest_match call of the audited parses, including the big inputs beyond 2^16 locations)",
+        "indentation switches reach the parser (monitored, blocking: in every dialect at least 5 of the 7 JOIN/CTE/CASE skeleton statements have "
+        "different trees with all switches off and all on - a process-wide remembered answer would make all instances agree with each other)",
         "a parse that aborts in Dialect::ref (C14 known findings) has no tree; on/off differences where one side is such an abort are counted, not reported",
     ],
     trusted_extra=["cfg(sqruff_verif) switches in context.rs/match_algorithms.rs and the longest_match recorder, cache-hit audit and location-key audit (repo commits verif-hook: ...)"],
